@@ -53,7 +53,7 @@ def generate(rng, tier, seed):
             emit += [["sleep", g], ["next", 0, v]]
         if end:
             emit += [["sleep", end_gap], end]
-        meta = {"d": d, "gaps": gaps, "vals": vals, "end_gap": end_gap, "end": end[0] if end else None}
+        meta = {"d": d, "gaps": gaps, "vals": vals, "end_gap": end_gap, "end": end[0] if end else None, "busy": [0] * len(gaps)}
         # a source that never terminates is unsubscribed in the end (debounce and sample poll for as long as they are subscribed)
         stop = [["u", ["sleep", sum(gaps) + 3 * d + 1], ["unsub", 0]]] if not end else []
         cases.append(dict(meta, scn=hot(["op", "delay", [d], ["hot", 0]], emit, sched), kind="delay"))
@@ -69,8 +69,9 @@ def generate(rng, tier, seed):
         if end:
             emit2 += [["sleep", end_gap], end]
         slow = hot(["op", "timeout", [d], ["hot", 0]], emit2, sched)
-        slow[2] = ["init", ["sub", 0, 0, ["react", i2, ["sleep", rng.choice([d - 1, d + 1])]]]]     # ... and keeps the consumer busy past its predecessor's deadline
-        cases.append(dict(meta, gaps=gaps2, vals=[10 * (j + 1) for j in range(len(gaps2))], scn=slow, kind="timeout"))
+        c2 = rng.choice([d - 1, d + 1])
+        slow[2] = ["init", ["sub", 0, 0, ["react", i2, ["sleep", c2]]]]     # ... and keeps the consumer busy past its predecessor's deadline
+        cases.append(dict(meta, gaps=gaps2, vals=[10 * (j + 1) for j in range(len(gaps2))], busy=[c2 if j == i2 else 0 for j in range(len(gaps2))], scn=slow, kind="timeout"))
         # the same sampled Observable subscribed again after an earlier subscription ended with an item pending
         t = rng.choice([1, 2])
         one = [["next", 0, 10], ["next", 0, 20], ["unsub", 0], ["sub", 1, 0], ["next", 1, 9], ["next", 0, 30], ["next", 1, 9], ["unsub", 1]]
@@ -189,8 +190,45 @@ def judge_one(case, ob):
     return bad, " ".join("%d:%s" % (t // 1000, "".join(str(x) for x in e)) for t, e in cbs), len(times) >= 2
 
 
+def spec_lines(cases):
+    """the definitions proved in Coq (spec_timeout, spec_delay), evaluated by the extracted code on every gap script"""
+    idx, lines = [], []
+    for ci, c in enumerate(cases):
+        if c["kind"] in ("timeout", "delay"):
+            items = ["items"] + [[g, v, b] for g, v, b in zip(c["gaps"], c["vals"], c["busy"])]
+            en = ["end", c["end_gap"], 1 if c["end"] == "error" else 0] if c["end"] else "none"
+            lines.append(sx.dumps([c["kind"], c["d"], items, en]))
+            idx.append(ci)
+    outs = vplib.driver_lines(["time-oracle"], lines) if lines else []
+    return {ci: sx.loads(o)[1:] for ci, o in zip(idx, outs)}
+
+
+def against_spec(case, ob, spec):
+    cbs = [(int(r[1]), r[5]) for r in ob["ev"] if r[3] == "cb" and int(r[4]) == 0]
+    if case["kind"] == "timeout":
+        got = []
+        for t, e in cbs:
+            if e[0] == "n":
+                got.append([str(t // MS), "n", str(e[1])])
+            elif e[0] == "c":
+                got.append([str(t // MS), "c"])
+            else:
+                got.append([str(t // MS), "e" if str(e[1]) == "5" else "timeout"])
+        want = [[str(x) for x in w] for w in spec]
+        if got != want or any(t % MS for t, _ in cbs):
+            return "timeout(%d ms) on gaps %s busy %s end %s: the subscriber saw %s, the definition (Coq spec_timeout) gives %s" % (
+                case["d"], case["gaps"], case["busy"], case["end"], got, want)
+    else:
+        got = [[str(t // MS), str(e[1])] for t, e in cbs if e[0] == "n"]
+        want = [[str(w[1]), str(w[2])] for w in spec]
+        if got != want:
+            return "delay(%d ms) on gaps %s: items delivered as (time, value) %s, the definition (Coq spec_delay) gives %s" % (case["d"], case["gaps"], got, want)
+    return None
+
+
 def judge(cases, runs):
     viol, unshown, nontriv = [], [], set()
+    specs = spec_lines(cases)
     for ci, (case, obs) in enumerate(zip(cases, runs)):
         for ob in obs:
             sd = sched_of(case, ob)
@@ -198,6 +236,10 @@ def judge(cases, runs):
                 viol.append((ci, sd, "run ended with status %s panics %s %s" % (ob["status"], ob.get("panics"), str(ob.get("detail", ""))[:300])))
                 continue
             bad, log, nt = judge_one(case, ob)
+            if ci in specs:
+                why = against_spec(case, ob, specs[ci])
+                if why:
+                    bad.append(why)
             if bad:
                 viol.append((ci, sd, "; ".join(bad[:2])))
             if nt:
